@@ -3,7 +3,7 @@
 From Coq Require Import List ZArith Bool.
 From Coq.Strings Require Import Byte.
 Import ListNotations.
-From SV Require Import Text G_tab C11_Model C11_Lemmas C11_TextLemmas.
+From SV Require Import Text G_tab C11_Model C11_Lemmas C11_TextLemmas C11_FileLemmas C11_Examples C11_IntLemmas C11_RenderLemmas.
 Local Open Scope Z_scope.
 
 (* P0 orientation: the decision of core.py:313-335 is the sign rule; in particular every accepted row spans
@@ -128,6 +128,162 @@ Theorem C11_read_rendered_rows : forall d c outfmt ftype hs rows,
 Proof. exact read_rendered_rows. Qed.
 Print Assumptions C11_read_rendered_rows.
 
+(* ---- whole files: header discovery on text (depth round) ----
+   [unlines ls] is the file whose lines are ls; skip_line = a '#'/blank line that no header-discovery branch picks up;
+   row_ok / wsrow_ok = a renderable data row. Every theorem says: reading the file gives exactly the row-level results
+   (rows_features: row_feature on each token row, first error wins). *)
+
+(* BLAST outfmt 7: comment lines, the '# Fields:' line naming the columns hs by long name, more comments, rows, trailer *)
+Theorem C11_read_blast7 : forall c ftype hs pre mid post rows,
+  hs <> [] -> forallb long_ok (map hlong hs) = true -> headers_from true Blast (map hlong hs) = Ok hs ->
+  forallb (skip_line Blast true true) pre = true -> forallb (skip_line Blast true true) mid = true ->
+  forallb (skip_line Blast true true) post = true -> forallb (row_ok Blast c) rows = true ->
+  snd (read_content Blast (Some c) None ftype false
+         (unlines (pre ++ [fields_line hs] ++ mid ++ map (join c) rows ++ post))) = rows_features Blast ftype hs rows.
+Proof. exact read_blast7. Qed.
+Print Assumptions C11_read_blast7.
+
+(* MMseqs2 fmtmode 4: the row of column names, then the rows *)
+Theorem C11_read_mmseqs4 : forall c ftype hs pre post rows,
+  names_ok c hs = true -> headers_from false Mmseqs (map hname hs) = Ok hs ->
+  forallb (skip_line Mmseqs true true) pre = true -> forallb (skip_line Mmseqs true true) post = true ->
+  forallb (row_ok Mmseqs c) rows = true ->
+  snd (read_content Mmseqs (Some c) None ftype false
+         (unlines (pre ++ [names_line c hs] ++ map (join c) rows ++ post))) = rows_features Mmseqs ftype hs rows.
+Proof. exact read_mmseqs4. Qed.
+Print Assumptions C11_read_mmseqs4.
+
+(* Infernal tblout fmt 1/2/3/2old: title lines, the ruler with n groups (n looked up in the column-count map), rows whose
+   first n-1 tokens are blank-free and whose last token (description) keeps its inner blanks (split with maxsplit n-1),
+   trailer comments; whatever sep/outfmt the caller passes is ignored *)
+Theorem C11_read_infernal : forall sep outfmt ftype n hs ruler pre post rows,
+  ruler_ok n ruler = true -> infernal_headers n = Ok hs ->
+  forallb (skip_line Infernal true true) pre = true -> forallb (skip_line Infernal true false) post = true ->
+  forallb (wsrow_ok n) rows = true ->
+  snd (read_content Infernal sep outfmt ftype false
+         (unlines (pre ++ [ruler] ++ map wsrow_line rows ++ post))) = rows_features Infernal ftype hs (map wsrow_toks rows).
+Proof. exact read_infernal. Qed.
+Print Assumptions C11_read_infernal.
+
+(* maxsplit: the whitespace split of a rendered row returns the tokens, the description with its blanks *)
+Theorem C11_split_ws_render : forall cells last,
+  forallb (fun p => simple_tok (fst p) && spacer (snd p)) cells = true -> edge_ok last = true ->
+  split_ws_max (length cells) (render_ws cells last) = map fst cells ++ [last].
+Proof. exact split_ws_render. Qed.
+Print Assumptions C11_split_ws_render.
+
+(* rows that carry abstract hits read to the specified locations and common metadata *)
+Theorem C11_rows_features_carry : forall d ftype hs rows hits, Forall2 (row_carries d hs) rows hits ->
+  exists fs, rows_features d ftype hs rows = Ok fs /\ map loc_meta fs = map spec_loc_meta hits.
+Proof. exact rows_features_carry. Qed.
+Print Assumptions C11_rows_features_carry.
+
+(* dialect independence ON TEXT: any two readings that the whole-file theorems (C11_read_rendered_rows for BLAST 6/10 and
+   MMseqs2 0, C11_read_blast7, C11_read_mmseqs4, C11_read_infernal) reduce to rows carrying the same hit list give equal
+   locations, strands and common metadata, namely the specified ones *)
+Theorem C11_text_dialect_independent : forall d1 d2 ft1 ft2 hs1 hs2 rows1 rows2 hits (r1 r2 : bool * res (list feat)),
+  snd r1 = rows_features d1 ft1 hs1 rows1 -> snd r2 = rows_features d2 ft2 hs2 rows2 ->
+  Forall2 (row_carries d1 hs1) rows1 hits -> Forall2 (row_carries d2 hs2) rows2 hits ->
+  exists fs1 fs2, snd r1 = Ok fs1 /\ snd r2 = Ok fs2 /\
+                  map loc_meta fs1 = map loc_meta fs2 /\ map loc_meta fs1 = map spec_loc_meta hits.
+Proof. exact text_dialect_independent. Qed.
+Print Assumptions C11_text_dialect_independent.
+
+(* finite table facts behind the hypotheses: every BLAST long name can be written in a '# Fields:' line and is unique;
+   each of the four Infernal column counts resolves to that many distinct headers *)
+Theorem C11_text_tables :
+  forallb long_ok (map hlong HEADER_blast) = true /\
+  nodup_str (map hlong HEADER_blast) = true /\
+  forallb (fun n => match infernal_headers n with Ok hs => Nat.eqb (length hs) n && nodup_str (map hname hs) | Err _ => false end)
+          [18; 29; 20; 27]%nat = true.
+Proof. exact text_tables. Qed.
+Print Assumptions C11_text_tables.
+
+(* outfmt= together with header lines: BLAST 7 comment lines including '# Fields:' and the MMseqs2 4 name rows are
+   ignored, the columns are those of outfmt (core.py:274, 288) *)
+Theorem C11_read_outfmt_file : forall d c o ftype hs pre names post rows,
+  headers_from false d (split_ws o) = Ok hs ->
+  forallb (skip_line d false false) pre = true -> forallb (skip_line d false false) post = true ->
+  (match d with Mmseqs => forallb (names_ok c) names | _ => match names with [] => true | _ => false end end) = true ->
+  forallb (row_ok d c) rows = true ->
+  snd (read_lines d (Some c) (Some o) ftype
+         (lines_keep (unlines (pre ++ map (names_line c) names ++ map (join c) rows ++ post)))) = rows_features d ftype hs rows.
+Proof. exact read_outfmt_file. Qed.
+Print Assumptions C11_read_outfmt_file.
+
+(* file transport (universal newlines): a CR-free file reads the same, and a CRLF file reads as the LF file *)
+Theorem C11_universal_newlines : forall d sep outfmt ftype,
+  (forall content, has x0d content = false ->
+     read_content d sep outfmt ftype true content = read_content d sep outfmt ftype false content) /\
+  (forall ls, forallb (fun l => negb (has x0d l)) ls = true ->
+     read_content d sep outfmt ftype true (unlines_crlf ls) = read_content d sep outfmt ftype false (unlines ls)).
+Proof. exact (fun d sep o ft => conj (read_content_univ d sep o ft) (read_content_crlf d sep o ft)). Qed.
+Print Assumptions C11_universal_newlines.
+
+(* typed conversion of the coordinate columns: int() of the decimal rendering of z is z, also with blanks around *)
+Theorem C11_int_of_decimal : forall z,
+  py_int (dec_of_Z z) = Some z /\ conv TInt (dec_of_Z z) = AInt z /\
+  (forall a b, all_space a = true -> all_space b = true -> py_int (a ++ dec_of_Z z ++ b) = Some z).
+Proof. exact (fun z => conj (py_int_dec z) (conj (conv_int_dec z) (fun a b => py_int_padded a b z))). Qed.
+Print Assumptions C11_int_of_decimal.
+
+(* rows rendered from an abstract hit with the default column lists (coordinates in decimal, the other columns free)
+   carry that hit *)
+Theorem C11_default_rows_carry : forall h,
+  (forall x, py_float (let '(pid, _, _, _) := x in pid) <> None ->
+             row_carries Blast (default_hs (bs "blast"%bs) Blast) (blast_row x h) h) /\
+  (forall x, row_carries Mmseqs (default_hs (bs "mmseqs"%bs) Mmseqs) (mmseqs_row x h) h) /\
+  (forall x, has_direction h = true ->
+             row_carries Infernal (default_hs (bs "infernal_1"%bs) Infernal) (infernal1_toks x h) h).
+Proof. exact (fun h => conj (fun x => blast_row_carries x h) (conj (fun x => mmseqs_row_carries x h) (fun x => infernal1_toks_carries x h))). Qed.
+Print Assumptions C11_default_rows_carry.
+
+(* read (render H) = spec H, end to end on text, for every abstract hit list H and the default column sets:
+   BLAST outfmt 6 / 10 (separator c), BLAST outfmt 7, MMseqs2 fmtmode 0 and 4, Infernal fmt 1 *)
+Theorem C11_read_blast6_hits : forall c ftype x hits, hits <> [] -> py_float (let '(pid, _, _, _) := x in pid) <> None ->
+  forallb (row_ok Blast c) (map (blast_row x) hits) = true ->
+  exists fs, snd (read_content Blast (Some c) None ftype false (unlines (map (join c) (map (blast_row x) hits)))) = Ok fs /\
+             map loc_meta fs = map spec_loc_meta hits.
+Proof. exact read_blast6_hits. Qed.
+Print Assumptions C11_read_blast6_hits.
+
+Theorem C11_read_blast7_hits : forall c ftype x pre mid post hits, py_float (let '(pid, _, _, _) := x in pid) <> None ->
+  forallb (skip_line Blast true true) pre = true -> forallb (skip_line Blast true true) mid = true ->
+  forallb (skip_line Blast true true) post = true -> forallb (row_ok Blast c) (map (blast_row x) hits) = true ->
+  exists fs, snd (read_content Blast (Some c) None ftype false
+                    (unlines (pre ++ [fields_line (default_hs (bs "blast"%bs) Blast)] ++ mid ++
+                              map (join c) (map (blast_row x) hits) ++ post))) = Ok fs /\
+             map loc_meta fs = map spec_loc_meta hits.
+Proof. exact read_blast7_hits. Qed.
+Print Assumptions C11_read_blast7_hits.
+
+Theorem C11_read_mmseqs0_hits : forall c ftype x hits, hits <> [] ->
+  forallb (row_ok Mmseqs c) (map (mmseqs_row x) hits) = true ->
+  exists fs, snd (read_content Mmseqs (Some c) None ftype false (unlines (map (join c) (map (mmseqs_row x) hits)))) = Ok fs /\
+             map loc_meta fs = map spec_loc_meta hits.
+Proof. exact read_mmseqs0_hits. Qed.
+Print Assumptions C11_read_mmseqs0_hits.
+
+Theorem C11_read_mmseqs4_hits : forall ftype x pre post hits,
+  forallb (skip_line Mmseqs true true) pre = true -> forallb (skip_line Mmseqs true true) post = true ->
+  forallb (row_ok Mmseqs x09) (map (mmseqs_row x) hits) = true ->
+  exists fs, snd (read_content Mmseqs (Some x09) None ftype false
+                    (unlines (pre ++ [names_line x09 (default_hs (bs "mmseqs"%bs) Mmseqs)] ++
+                              map (join x09) (map (mmseqs_row x) hits) ++ post))) = Ok fs /\
+             map loc_meta fs = map spec_loc_meta hits.
+Proof. exact read_mmseqs4_hits. Qed.
+Print Assumptions C11_read_mmseqs4_hits.
+
+Theorem C11_read_infernal1_hits : forall sep outfmt ftype ruler pre post rows xs hits,
+  ruler_ok 18 ruler = true ->
+  forallb (skip_line Infernal true true) pre = true -> forallb (skip_line Infernal true false) post = true ->
+  forallb (wsrow_ok 18) rows = true -> forallb has_direction hits = true ->
+  map wsrow_toks rows = map (fun xh => infernal1_toks (fst xh) (snd xh)) (combine xs hits) -> length xs = length hits ->
+  exists fs, snd (read_content Infernal sep outfmt ftype false (unlines (pre ++ [ruler] ++ map wsrow_line rows ++ post))) = Ok fs /\
+             map loc_meta fs = map spec_loc_meta hits.
+Proof. exact read_infernal1_hits. Qed.
+Print Assumptions C11_read_infernal1_hits.
+
 (* non-vacuity: one minus-strand hit (subject 20..10, query 5..6, e-value 1e-5, bit score 50) as a BLAST outfmt 6 line,
    an MMseqs2 fmtmode 4 file and an Infernal fmt 1 file; all three are inside the domain and read, through the whole
    text-level model, to the interval [9, 20) on the minus strand with the same common metadata *)
@@ -148,3 +304,36 @@ Example C11_witness_carries :
   carries Blast (dict_set (bs "sseqid"%bs) (AStr (bs "s1"%bs)) a) h /\
   sstrand_agrees h (assoc (bs "sstrand"%bs) a) = true /\ ident_ok a = true /\ spec_strand h = bs "-"%bs.
 Proof. exact witness_carries. Qed.
+
+(* non-vacuity of the whole-file theorems on sugar's bundled example files: the hypotheses of C11_read_blast7 hold for
+   fts_example.blastn (first two hits), those of C11_read_mmseqs4 for fts_example.mmseqs2, those of C11_read_infernal for
+   fts_example.infernal (first hit, a minus-strand tRNA with a free-text description), and the rows carry the hits *)
+Example C11_witness_blast7 :
+  ex_blast_hs <> [] /\ forallb long_ok (map hlong ex_blast_hs) = true /\
+  headers_from true Blast (map hlong ex_blast_hs) = Ok ex_blast_hs /\
+  forallb (skip_line Blast true true) ex_blast_pre = true /\ forallb (skip_line Blast true true) ex_blast_mid = true /\
+  forallb (skip_line Blast true true) ex_blast_post = true /\ forallb (row_ok Blast x09) ex_blast_rows = true /\
+  Forall2 (row_carries Blast ex_blast_hs) ex_blast_rows ex_blast_hits.
+Proof. exact witness_blast7. Qed.
+Example C11_witness_mmseqs4 :
+  names_ok x09 ex_mm_hs = true /\ headers_from false Mmseqs (map hname ex_mm_hs) = Ok ex_mm_hs /\
+  forallb (row_ok Mmseqs x09) ex_mm_rows = true /\ Forall2 (row_carries Mmseqs ex_mm_hs) ex_mm_rows ex_mm_hits.
+Proof. exact witness_mmseqs4. Qed.
+Example C11_witness_infernal :
+  ruler_ok 18 ex_inf_ruler = true /\ infernal_headers 18 = Ok ex_inf_hs /\
+  forallb (skip_line Infernal true true) ex_inf_pre = true /\ forallb (skip_line Infernal true false) ex_inf_post = true /\
+  wsrow_ok 18 ex_inf_row = true /\ Forall2 (row_carries Infernal ex_inf_hs) [wsrow_toks ex_inf_row] [ex_inf_hit] /\
+  spec_strand ex_inf_hit = bs "-"%bs.
+Proof. exact witness_infernal. Qed.
+
+(* non-vacuity of the read (render H) theorems: three hits (minus strand, plus strand, no direction) render to valid
+   BLAST 6, BLAST 10 and MMseqs2 0 rows; the first reads to [39922088, 39923568) on the minus strand *)
+Example C11_witness_render :
+  ex_hits <> [] /\ py_float (let '(pid, _, _, _) := ex_x in pid) <> None /\
+  forallb (row_ok Blast x09) (map (blast_row ex_x) ex_hits) = true /\
+  forallb (row_ok Blast ","%byte) (map (blast_row ex_x) ex_hits) = true /\
+  forallb (row_ok Mmseqs x09) (map (mmseqs_row ex_x) ex_hits) = true /\
+  map spec_loc_meta (firstn 1 ex_hits) =
+    [(39922088, 39923568, bs "-"%bs, Some (AStr (bs "NC_081844.1"%bs)), Some (AStr (bs "exon3-AMCR"%bs)),
+      Some (AFlt (FNum false 0 (-1))), Some (AFlt (FNum false 2734 0)))].
+Proof. exact witness_render. Qed.
